@@ -70,8 +70,8 @@ func (vm *varyMatcher) VaryHeadersMatch(entries ResponseRefs, reqHdr http.Header
 }
 
 func (vm *varyMatcher) varyHeadersMatchOne(entry *ResponseRef, reqHeader http.Header) bool {
-	if entry.Vary == "*" {
-		return false // Vary: "*" never matches
+	if _, star := entry.VaryResolved["*"]; star || strings.TrimSpace(entry.Vary) == "*" {
+		return false // Vary: "*", alone or among other members, never matches
 	}
 	for field, value := range entry.VaryResolved {
 		reqValues := reqHeader[field]
